@@ -21,7 +21,7 @@ JOBS = 8
 GARBAGE = {"quick": 15000, "thorough": 1000000}
 # families whose recursion depth (parser, checks, printer) grows with n
 DEBUG_FAMILIES = {"Deep", "DeepMixed", "Unclosed", "Mismatch", "Parens", "GroupsL", "GroupsR", "SeqGroupsL", "SeqGroupsR",
-                  "MixGroupsL", "ChainContent", "ChainAttr", "CycleContent", "CycleAttr"}
+                  "MixGroupsL", "ChainContent", "ChainAttr", "CycleContent", "CycleAttr", "Ladders"}
 # Trace_Cost handles a few thousand events per second; every family event, every event that is not
 # ok/err and this many of the others go through it per TLC run (the remainder is validated in further
 # TLC runs of the same size in the thorough tier, see _validate_all)
